@@ -139,9 +139,41 @@ def _callsig(col, rule="C10.R1"):
                     ("indexed", "state", False): {"is-int"}, ("all", "state", True): {"is-str"}}.get((who, val, bool(matched)))
             if want is None:
                 continue        # already reported by the set comparison above
-            col.add(rule, f"_set_state#{who}-{val}{'-matched' if matched else ''}-under-its-own-test", tags == want, sx.loc(e),
+            # decided on the finite set of kinds `entries` can be: under which of them can this store run?
+            DOM = {"None": None, "True": True, "False": False, "int": 5, "str": "a", "list": [5, "a"]}
+
+            def ev(c, v):
+                if c == entries:
+                    return bool(v)
+                if c[:2] == ("uop", "not"):
+                    r_ = ev(c[2], v)
+                    return None if r_ is None else not r_
+                if c[:1] == ("cmp",) and c[1] in ("is", "is not") and c[2] == entries and c[3][:1] == ("const",) and c[3][1] in ("None", "True", "False"):
+                    same = v is {"None": None, "True": True, "False": False}[c[3][1]]
+                    return same if c[1] == "is" else not same
+                if S.is_call_of(c, ("glob", "isinstance")) and len(c[2]) == 2 and c[2][0] == entries:
+                    tt = c[2][1]
+                    names = [y[1] for y in (tt[1] if tt[:1] == ("tuple",) else (tt,)) if y[:1] == ("glob",)]
+                    if names and all(nm_ in ("int", "str", "bool", "list", "tuple") for nm_ in names):
+                        return isinstance(v, tuple({"int": int, "str": str, "bool": bool, "list": list, "tuple": tuple}[nm_] for nm_ in names))
+                    return None
+                if c[:1] == ("bool",):
+                    vs = [ev(x, v) for x in c[2]]
+                    if c[1] == "and":
+                        return False if False in vs else (None if None in vs else True)
+                    return True if True in vs else (None if None in vs else False)
+                return None
+            runs_for = {k for k, v in DOM.items() if not any(ev(c, v) is False for c in conds)}
+            if who == "all" and not matched:
+                expect = {"True"} if val == "state" else {"False"}
+                okd = runs_for == expect
+            else:
+                # positions and patterns: a single int / str or a sequence of them; never None, True or False
+                okd = not (runs_for & {"None", "True", "False"}) and bool(runs_for & {"int", "str", "list"})
+                expect = {"int / str / list"}
+            col.add(rule, f"_set_state#{who}-{val}{'-matched' if matched else ''}-under-its-own-test", okd, sx.loc(e),
                     "each kind of selection (True / False / position / pattern) acts under the test for that kind, and None selects nothing",
-                    f"under {sorted(tags)}, expected {sorted(want)}")
+                    f"can run when `entries` is {sorted(runs_for)}, expected {sorted(expect)}")
             for c in matched:
                 a = c[2]
                 okm = len(a) == 2 and any(x == entries for x in S.subterms(a[0])) and \
